@@ -311,6 +311,13 @@ def builder_case(ctx, case):
     ctx.state(('bld', k, tname, si))
     tag = (k, tname, si)
     try:
+        # history: an earlier witness by the same key for the same point, flags and field names over other contents
+        sf0 = {n: v + b'-earlier' for n, v in sf.items()}
+        m0 = b''.join(sf0[n] for n in sorted(sf0) if not fl >> (int(n[-1]) - 1) & 1)
+        w0 = T_.make_adapter_witness(ks, Tp, dict(sf0), flags)
+        ctx.ran()
+        if len(w0.bytes) != 68 or not adapter_equation(X, Tp, m0, w0.bytes[36:68], w0.bytes[2:34]):
+            ctx.violation({'builder': 'make_adapter_witness', 'clause': 'adapter equation over the flag-selected message', 'when': 'earlier contents'}, f'{tag}')
         wit = T_.make_adapter_witness(ks, Tp, dict(sf), flags)
         l1, l2 = T_.make_adapter_locks_pub(X, Tp, flags)
         p1, p2, p3 = T_.make_adapter_locks_prv(X, t, flags)
